@@ -4344,6 +4344,8 @@ class ParseCtx:
         # Parse macros
         for macro in self._parse_tree.find_data("macro_decl"):
             macro_obj = Macro(macro.children[0], macro.children[2:], self._parse_macro_arguments(macro.children[1]))
+            if not macro.children[2:]:
+                raise IllegalParseTree("A macro needs at least one statement", macro.children[0])
             if macro_obj.name in self.macros:
                 raise DuplicateDefinitionError("macro", macro, macro_obj.name)
             self.macros[macro_obj.name] = macro_obj
